@@ -2315,7 +2315,7 @@ class JMCRequire(JMCFunction):
         )
         if self.args["errorMessage"] == "default":
             if is_allow_missing:
-                run = f'tellraw @a "[WARNING] Missing dependency: {namespace}'
+                run = f'tellraw @a "[WARNING] Missing dependency: {namespace}"'
             else:
                 run = f'return run tellraw @a "[ERROR] Missing dependency: {namespace}. Failed to initialize"'
         elif self.args["errorMessage"] == "":
